@@ -3,6 +3,7 @@
 set -e
 cd "$(dirname "$0")/.."
 GEN="lean/EmuVerif/Drv/All.lean lean/EmuVerif.lean MANIFEST.json known_findings.json"
+git add -A; git commit -qm "evidence/working files before merging $1" || true
 git merge --no-commit --no-ff "$1" >/dev/null 2>&1 || true
 for f in $GEN; do git checkout --ours -- $f 2>/dev/null || true; done
 # per-package findings files: the package branch is authoritative
